@@ -69,6 +69,14 @@ impl Oracle {
             ("C02", "rbsp") => self.c02_rbsp(&toks[1..], line),
             ("C02", "decodenal") => self.c02_decodenal(toks.get(1).copied().unwrap_or("-"), line),
             ("C15", "refnal") => self.c15(&toks[1..], line),
+            ("C15", "refnalhuge") | ("C03", "refnalhuge") => {
+                // every byte once and in order (total and pattern), then end of data for ever (complete) or WouldBlock for ever (incomplete)
+                let got = self.run.run_line(line);
+                let n: u64 = toks[1].parse().unwrap_or(0); let lg: u32 = toks[2].parse().unwrap_or(0); let extra: u64 = toks[4].parse().unwrap_or(0);
+                let e = if toks[3] == "1" { "eof" } else { "WouldBlock" };
+                let want = format!("total={} bytes=ok end={} again={},{}", n * (1u64 << lg) + extra, e, e, e);
+                if got == want { "ok".into() } else { format!("FAIL a NAL of {} chunks of 2^{} bytes (+{}) read as [{}], expected [{}]", n, lg, extra, got, want) }
+            }
             ("C08", "acc") => self.c08(&toks[1..], line),
             ("C07", "bits") | ("C14", "bits") => self.bits(&toks[1..], line, None),
             ("C07", "nalbits") | ("C14", "nalbits") => {
@@ -123,20 +131,30 @@ impl Oracle {
             // the independently kept latest parameter sets (all SPS first, then all PPS): stores do not disturb each other and a
             // parser always sees the latest definition of the ids it follows
             ("C06", "reset") | ("C16", "reset") => { self.sps_objs.clear(); self.pps_objs.clear(); let _ = self.run.run_line(line); "ok".into() }
-            ("C06", "sps") => { let d = unhex(toks.get(1).copied().unwrap_or(""));
-                if let Ok(s) = h264_reader::nal::sps::SeqParameterSet::from_bits(h264_reader::rbsp::BitReader::new(&d[..])) { self.sps_objs.insert(s.seq_parameter_set_id.id(), s); }
-                let _ = self.run.run_line(line); "ok".into() }
-            ("C06", "pps") => { let d = unhex(toks.get(1).copied().unwrap_or(""));
-                let rc = self.ref_ctx();
-                if let Ok(p) = h264_reader::nal::pps::PicParameterSet::from_bits(&rc, h264_reader::rbsp::BitReader::new(&d[..])) { self.pps_objs.insert(p.pic_parameter_set_id.id(), p); }
-                let _ = self.run.run_line(line); "ok".into() }
+            ("C06", "sps") | ("C06", "pps") => { self.track_params(&toks); let _ = self.run.run_line(line); "ok".into() }
             ("C06", "slice") => {
                 let got = self.run.run_line(line);
-                let mut fresh = Runner::new(); fresh.ctx = self.ref_ctx();
-                let want = fresh.run_line(line);
-                if got == want { "ok".into() } else { format!("FAIL slice header against the context built by the history of puts gives [{}] but against a context assembled afresh from the latest accepted parameter sets gives [{}]", &got[..got.len().min(400)], &want[..want.len().min(400)]) }
+                let v = self.slice_fresh_ctx(line, &got);
+                if v != "ok" { return v; }
+                // converse half on the implementation: the accepted bits start with the standard-order encoding of what was returned
+                let hb = unhex(toks.get(1).copied().unwrap_or("00")); let d = unhex(toks.get(2).copied().unwrap_or(""));
+                if let Ok(nh) = h264_reader::nal::NalHeader::new(hb.first().copied().unwrap_or(0)) {
+                    let mut br = h264_reader::rbsp::BitReader::new(&d[..]);
+                    if let Ok((h, sps, pps)) = h264_reader::nal::slice::SliceHeader::from_bits(&self.run.ctx, &mut br, nh) {
+                        let vars = match crate::reenc::enc_slice_variants(&h, sps, pps, nh) { Ok(v) => v, Err(why) => return format!("FAIL the parser returned a slice header that 7.3.3 cannot produce with the activated parameter sets: {}: {}", why, &got[..got.len().min(300)]) };
+                        if !vars.is_empty() {
+                            let mut all: Vec<bool> = Vec::with_capacity(d.len() * 8); for b in &d { for i in (0..8).rev() { all.push((b >> i) & 1 == 1); } }
+                            if !vars.iter().any(|v| all.len() >= v.len() && all[..v.len()] == v[..]) {
+                                let first = vars[0].iter().zip(all.iter()).position(|(a, b)| a != b).unwrap_or(vars[0].len().min(all.len()));
+                                return format!("FAIL the parser accepted this slice header but what it returned does not re-encode (7.3.3) to the bits it was given: first difference at bit {} of {} header bits: {}", first, vars[0].len(), &got[..got.len().min(300)]);
+                            }
+                        }
+                    }
+                }
+                "ok".into()
             }
             ("C11", "pt") => self.c11_pt(&toks, line),
+            ("C11", "bp") => self.c11_bp(&toks, line),
             ("C11", "t35") => {
                 // T.35: one country-code byte, or ff + one extension byte; the remainder starts right behind them
                 let d = unhex(toks.get(1).copied().unwrap_or(""));
@@ -151,7 +169,13 @@ impl Oracle {
                 else { "ok".into() }
             }
             ("C13", "derived") => self.c13(line),
-            ("C16", "sps") | ("C16", "pps") | ("C16", "slice") => self.c16(&toks, line),
+            ("C16", "sps") | ("C16", "pps") => { self.track_params(&toks); self.c16(&toks, line) }
+            ("C16", "slice") => {
+                // (the fresh-context comparison first: it needs the context as it was before this line, which c16 does not change for slices)
+                let mut probe = Runner::new(); probe.ctx = self.ref_ctx(); let want = probe.run_line(line);
+                let v = self.c16(&toks, line);
+                if v != "ok" { v } else { let got = self.run.run_line(line); if got == want { "ok".into() } else { format!("FAIL the parameter sets returned with the slice header are not the latest accepted ones: history-built context gives [{}], a context assembled afresh from the latest accepted parameter sets gives [{}]", &got[..got.len().min(400)], &want[..want.len().min(400)]) } }
+            }
             ("C09", "avcc") | ("C19", "avcc") | ("C20", "avcc") | ("C12", "avcc") => self.c09(toks.get(1).copied().unwrap_or(""), line),
             ("C12", "stream") => self.c12(&toks[1..], line),
             ("C17", "full") => { self.full_nal = unhex(toks.get(1).copied().unwrap_or("")); "ok".into() }
@@ -422,6 +446,17 @@ impl Oracle {
         "ok".into()
     }
 
+    /// keep the latest accepted parameter sets as values outside any `Context` (a PPS is parsed against the fresh context)
+    fn track_params(&mut self, toks: &[&str]) {
+        let d = unhex(toks.get(1).copied().unwrap_or(""));
+        if toks[0] == "sps" { if let Ok(s) = h264_reader::nal::sps::SeqParameterSet::from_bits(h264_reader::rbsp::BitReader::new(&d[..])) { self.sps_objs.insert(s.seq_parameter_set_id.id(), s); } }
+        else { let rc = self.ref_ctx(); if let Ok(p) = h264_reader::nal::pps::PicParameterSet::from_bits(&rc, h264_reader::rbsp::BitReader::new(&d[..])) { self.pps_objs.insert(p.pic_parameter_set_id.id(), p); } }
+    }
+    fn slice_fresh_ctx(&mut self, line: &str, got: &str) -> String {
+        let mut fresh = Runner::new(); fresh.ctx = self.ref_ctx();
+        let want = fresh.run_line(line);
+        if got == want { "ok".into() } else { format!("FAIL slice header against the context built by the history of puts gives [{}] but against a context assembled afresh from the latest accepted parameter sets gives [{}]", &got[..got.len().min(400)], &want[..want.len().min(400)]) }
+    }
     fn ref_ctx(&self) -> h264_reader::Context {
         let mut c = h264_reader::Context::new();
         for s in self.sps_objs.values() { { let _ = c.put_seq_param_set(s.clone()); }; }
@@ -510,6 +545,42 @@ impl Oracle {
 
     /// pic_timing (D.1.2 / D.2.2) decoded here from the payload bits with the widths of the SPS's HRD (NAL HRD first, then
     /// VCL): the delays and every time_offset (two's complement of time_offset_length bits) the library reports must be these
+    /// reference decoder for buffering_period (D.1.2): ue sps id, then for the NAL HRD and the VCL HRD (each if present in the
+    /// SPS that id names) one (delay, offset) pair of initial_cpb_removal_delay_length bits per CPB, then nothing or a stop bit + zeros
+    fn c11_bp(&mut self, t: &[&str], line: &str) -> String {
+        let obs = self.run.run_line(line);
+        if obs == "PANIC" { return "FAIL panic".into(); }
+        let payload = unhex(t.get(1).copied().unwrap_or(""));
+        let mut bits: Vec<bool> = vec![]; for b in &payload { for i in (0..8).rev() { bits.push((b >> i) & 1 == 1); } }
+        let mut pos = 0usize;
+        let want: Option<String> = (|| {
+            let mut z = 0u32; while pos < bits.len() && !bits[pos] { z += 1; pos += 1; if z > 31 { return None; } }
+            if pos >= bits.len() { return None; } pos += 1;
+            if pos + z as usize > bits.len() { return None; }
+            let mut v = 0u64; for _ in 0..z { v = (v << 1) | bits[pos] as u64; pos += 1; }
+            let id = (1u64 << z) - 1 + v; if id > 31 { return None; }
+            let sid = h264_reader::nal::sps::SeqParamSetId::from_u32(id as u32).ok()?;
+            let sps = self.run.ctx.sps_by_id(sid)?;
+            let vui = sps.vui_parameters.as_ref();
+            let mut parts = vec![];
+            for h in [vui.and_then(|v| v.nal_hrd_parameters.as_ref()), vui.and_then(|v| v.vcl_hrd_parameters.as_ref())] {
+                match h { None => parts.push("None".to_string()), Some(h) => {
+                    let n = h.initial_cpb_removal_delay_length_minus1 as usize + 1; let mut items = vec![];
+                    for _ in 0..h.cpb_specs.len() {
+                        if pos + 2 * n > bits.len() { return None; }
+                        let mut a = 0u64; for _ in 0..n { a = (a << 1) | bits[pos] as u64; pos += 1; }
+                        let mut b = 0u64; for _ in 0..n { b = (b << 1) | bits[pos] as u64; pos += 1; }
+                        items.push(format!("InitialCpbRemoval {{ initial_cpb_removal_delay: {}, initial_cpb_removal_delay_offset: {} }}", a, b));
+                    }
+                    parts.push(format!("Some([{}])", items.join(", "))); } }
+            }
+            // payload end: nothing left, or a stop bit followed by zero bits only
+            if pos < bits.len() { if !bits[pos] || bits[pos + 1..].iter().any(|b| *b) { return None; } }
+            Some(format!("Ok(BufferingPeriod {{ nal_hrd_bp: {}, vcl_hrd_bp: {} }})", parts[0], parts[1]))
+        })();
+        let want = want.unwrap_or("Err".to_string());
+        if obs == want { "ok".into() } else { format!("FAIL buffering_period gave [{}], the reference decoder gives [{}]", &obs[..obs.len().min(300)], &want[..want.len().min(300)]) }
+    }
     fn c11_pt(&mut self, t: &[&str], line: &str) -> String {
         let obs = self.run.run_line(line);
         let spsb = unhex(t[1]); let payload = unhex(t.get(2).copied().unwrap_or(""));
